@@ -346,9 +346,129 @@ def ob_batch(method, cmp=None, label=""):
 
     return run
 
+CHAIN_RULES = ["if X is t0 then O is c0", "if O is c0 then O is c1", "if O is c1 or X is t1 then O is c2", "if O is c2 and O is c0 then O is c1"]
+CHAIN_CONCL = [0, 1, 2, 1]
+
+PY_CHAIN = """
+def chain_oracle(method, D, n, t, cmp):
+    import operator
+    f = {"<": operator.lt, "<=": operator.le, "==": operator.eq, "!=": operator.ne, ">=": operator.ge, ">": operator.gt}.get(cmp)
+    acts = {0: [], 1: [], 2: []}
+    out = lambda c: max([0.0] + acts[c])
+    order = [3, 2, 1, 0] if method == "Last" else [0, 1, 2, 3]
+    deg, sel, count = [None] * 4, [False] * 4, 0
+    for i in order:
+        d = [lambda: D[0], lambda: out(0), lambda: max(out(1), D[1]), lambda: min(out(2), out(0))][i]()
+        if method == "General": s = True
+        elif method == "Threshold": s = bool(f(d, t))
+        else:
+            s = d > 0 and d >= t and count < n
+            count += 1 if s else 0
+        deg[i], sel[i] = d, s
+        if s: acts[CHAIN_CONCL[i]].append(d)
+    return sel, [sel[i] and deg[i] > 0 for i in range(4)], deg
+"""
+
+
+def ob_chained(method, cmp=None, label="", prop=None):
+    """rules of ONE block that read, in their antecedents, output terms concluded by earlier rules of the same activation: under the
+    methods that decide rule by rule (General, Threshold, First, Last in its reverse order) a rule sees what the rules before it
+    have contributed so far, i.e. degrees are computed and rules fired in one interleaved pass"""
+    def run(ob):
+        fl = install()
+        set_mode("R")
+        S.box_scalars = True
+        D = [rvar("d0"), rvar("d1")]
+        nsym, t = SymInt.var("n"), rvar("t")
+        pre = [unit(x) for x in D] + [nsym.i >= 0, nsym.i <= 5, t.v >= 0, t.v <= 1]
+        ins = {"d0": D[0], "d1": D[1], "n": nsym, "t": t}
+
+        def rbody(v):
+            ctor = {"General": "fl.General()", "First": f"fl.First({v['n']}, {lit(v['t'])})", "Last": f"fl.Last({v['n']}, {lit(v['t'])})",
+                    "Threshold": f"fl.Threshold({cmp!r}, {lit(v['t'])})"}[method]
+            return "\n".join([PYREF, f"CHAIN_CONCL = {CHAIN_CONCL!r}", PY_CHAIN, f"D = {lit([v['d0'], v['d1']])}",
+                              "X = fl.InputVariable('X', minimum=0, maximum=1, terms=[Fixed('t%d' % i, [D[i]]) for i in range(2)]); X.value = 0.5",
+                              "O = fl.OutputVariable('O', minimum=0, maximum=1, aggregation=fl.Maximum(), defuzzifier=fl.Centroid(), terms=[fl.Triangle('c%d' % i, 0, 0.5, 1) for i in range(3)])",
+                              "e = fl.Engine('e', '', [X], [O], [])",
+                              f"rules = [fl.Rule.create(r, e) for r in {CHAIN_RULES!r}]",
+                              f"rb = fl.RuleBlock('rb', conjunction=fl.Minimum(), disjunction=fl.Maximum(), implication=fl.Minimum(), activation={ctor}, rules=rules)",
+                              "e.rule_blocks = [rb]; O.fuzzy.clear(); rb.activate(); bad = None",
+                              f"sel, trig, deg = chain_oracle({method!r}, D, {v['n']}, {lit(v['t'])}, {cmp!r})",
+                              "for i in range(4):",
+                              "    if bool(rules[i].triggered) != trig[i] or not same(rules[i].activation_degree, deg[i], 1e-9):",
+                              "        bad = 'rule %d (%s): triggered=%r degree=%r; interleaved definition: triggered=%r degree=%r' % (i, rules[i].text, bool(rules[i].triggered), rules[i].activation_degree, trig[i], deg[i]); break",
+                              "if not bad and len(O.fuzzy.terms) != sum(sel): bad = '%d contributions, expected %d' % (len(O.fuzzy.terms), sum(sel))",
+                              f"verdict(bad is not None, '{method} chained D=%r n={v['n']} t=%r: %s' % (D, {lit(v['t'])}, bad))"])
+
+        rp = replay_fn(prop or PROPERTY, label, rbody, key=None)
+
+        def body():
+            class Abs(fl.Term):
+                def __init__(self, name, i):
+                    super().__init__(name)
+                    self.i = i
+
+                def membership(self, x):
+                    return D[self.i]
+
+            X = fl.InputVariable("X", minimum=0, maximum=1, terms=[Abs(f"t{i}", i) for i in range(2)])
+            X.value = 0.5
+            O = fl.OutputVariable("O", minimum=0, maximum=1, aggregation=fl.Maximum(), defuzzifier=fl.Centroid(),
+                                  terms=[fl.Triangle(f"c{i}", 0, 0.5, 1) for i in range(3)])
+            e = fl.Engine("e", "", [X], [O], [])
+            rules = [fl.Rule.create(r, e) for r in CHAIN_RULES]
+            rb = fl.RuleBlock("rb", conjunction=fl.Minimum(), disjunction=fl.Maximum(), implication=fl.Minimum(),
+                              activation=make_method(fl, method, nsym, t, cmp), rules=rules)
+            e.rule_blocks = [rb]
+            rb.activate()
+            return [(r.triggered, r.activation_degree) for r in rules], len(O.fuzzy.terms)
+
+        zmax = lambda a, b: z3.If(a >= b, a, b)     # noqa: E731
+        zmin = lambda a, b: z3.If(a <= b, a, b)     # noqa: E731
+        for p in ob.paths(pre, body):
+            if p.exc is not None:
+                ob.unexpected(pre, p, label, ins, rp)
+                continue
+            acts = {0: [], 1: [], 2: []}
+
+            def out(c):
+                acc = z3.RealVal(0)
+                for cond, d in acts[c]:
+                    acc = z3.If(cond, zmax(acc, d), acc)
+                return acc
+
+            order = [3, 2, 1, 0] if method == "Last" else [0, 1, 2, 3]
+            deg, sel, count = [None] * 4, [None] * 4, z3.IntVal(0)
+            for i in order:
+                d = [lambda: D[0].v, lambda: out(0), lambda: zmax(out(1), D[1].v), lambda: zmin(out(2), out(0))][i]()
+                if method == "General":
+                    sl = z3.BoolVal(True)
+                elif method == "Threshold":
+                    sl = CMPS[cmp](d, t.v)
+                else:
+                    sl = z3.And(d > 0, d >= t.v, count < nsym.i)
+                    count = count + z3.If(sl, 1, 0)
+                deg[i], sel[i] = d, sl
+                acts[CHAIN_CONCL[i]].append((sl, d))
+            rs, total = p.result
+            claims = []
+            for i in range(4):
+                tre = elements(rs[i][0])
+                claims.append(ZB(core.tb(tre[0])) == z3.And(sel[i], deg[i] > 0) if len(tre) == 1 else z3.BoolVal(False))
+                adv = tf(rs[i][1])
+                claims.append(z3.And(ZB(adv.fin()), adv.v == deg[i]))
+            claims.append(z3.Sum([z3.If(c, 1, 0) for c in sel]) == total)
+            ob.prove(pre, p, z3.And(*claims), label, ins, rp)
+            ob.expect_sat(pre, p, tf(rs[3][1]).v == 2, f"{label}/twin")
+
+    return run
+
 
 def obligations(tier, seed):
     obs = []
+    for method, cmp in [("General", None), ("First", None), ("Last", None)] + [("Threshold", c) for c in ((">", ">=", "<") if tier == "quick" else CMPS)]:
+        nm = f"{method}{cmp or ''}/chained"
+        obs.append((nm, ob_chained(method, cmp, label=nm)))
     big = 4 if tier == "quick" else 5
     for method in METHODS:
         maxn = big - 1 if method in ("Highest", "Lowest") else big
